@@ -1,12 +1,33 @@
 """Property -> rules table."""
 from __future__ import annotations
 
-from . import save
+from . import bounds, save
 
 _NOTE = ("Static analysis of /repo's current source (Python ast, own name resolution, provenance terms, "
          "path-sensitive walks). Decides the structural necessary conditions listed; does not observe numeric behaviour.")
 
+_SITE_RULE = "one obligation per (rule, site); a site is non-trivial when the rule matched a real construct of the repository"
+
 PROPERTIES: dict[str, dict] = {
+    "C01": {"title": "Superadditive bounds always contain the true game", "rules": [bounds.rule_bounds],
+            "explanation": _NOTE + " C01: abstract interpretation of both superadditive computers in the coalition-class domain: "
+            "B1 write discipline, B2 coverage, B3 size order, B4 fresh reads, B5 phase order, B6s/B7s soundness shape of the recurrences, B10 relation-table agreement.",
+            "rule": _SITE_RULE},
+    "C02": {"title": "Superadditive bounds are tight", "rules": [bounds.rule_bounds],
+            "explanation": _NOTE + " C02: B6 lower = MAX over exactly all proper non-empty sub-coalitions, B7 upper = MIN over exactly all known proper supersets, B3 order.",
+            "rule": _SITE_RULE},
+    "C03": {"title": "Cached and reference computers interchangeable", "rules": [bounds.rule_bounds],
+            "explanation": _NOTE + " C03: B8 term-equality of the two normalised write schedules, B9 cache hygiene (pure, keyed by n, never mutated by callers), B10 relation-table agreement, REG-B registry/CLI selection.",
+            "rule": _SITE_RULE},
+    "C04": {"title": "Approximate SAM bounds", "rules": [bounds.rule_bounds],
+            "explanation": _NOTE + " C04: B1/B2/B5 on the SAM computer, B11a phase guard, B11b monotone closure, B11c upper recurrence, B12 registry bindings and repetition range.",
+            "rule": _SITE_RULE},
+    "C07": {"title": "More information never hurts", "rules": [bounds.rule_bounds],
+            "explanation": _NOTE + " C07: B13 knowledge polarity of every candidate set in all registered computers.",
+            "rule": _SITE_RULE},
+    "C08": {"title": "Bounds depend only on current knowledge", "rules": [bounds.rule_bounds],
+            "explanation": _NOTE + " C08: B1-B5 for all six registered computers, H1 no hidden state.",
+            "rule": _SITE_RULE},
     "C19": {
         "title": "Saved results read back faithfully and are never overwritten",
         "rules": [save.rule_c19_saver, save.rule_c19_output_roundtrip, save.rule_c19_commands],
